@@ -39,6 +39,7 @@ TARGETS = {
     '_conjoin': dict(rx=r'cdef DdRef _conjoin\(', args=['mgr', 'level', 'node', 'node']),
     '_compose': dict(rx=r'cdef DdRef _compose\(', args=['mgr', 'level', 'table', 'node', 'vector']),
     'add_var': dict(rx=r'\s*cpdef int add_var\(', cls='ZDD', args=['self', 'name', 'index']),
+    '_c_compose': dict(rx=r'cpdef Function _c_compose\(', args=['handle', 'dvars']),
 }
 INT_FUNCS = {'Cudd_ReadInvPermZdd', 'Cudd_NodeReadIndex', 'Cudd_ReadPermZdd', 'Cudd_ReadPerm',
              'Cudd_ReadInvPerm', 'Cudd_ReadZddSize', 'Cudd_ReadSize'}
@@ -53,6 +54,7 @@ def normalise_c(txt):
     txt = re.sub(r'\)\s*(except\??\s*[\w\-]+|noexcept)\s*:', '):', txt)
     txt = re.sub(r'^(\s*)Dd\w+\s*\*\s*(\w+)(\s*[,\)])', r'\1\2\3', txt, flags=re.M)     # `DdManager *mgr,`
     txt = re.sub(r'^(\s*)cdef\s+Dd\w+\s*\*\s*\w+\s*$', r'\1pass', txt, flags=re.M)
+    txt = re.sub(r'<\s*DdRef\s*\*\s*>\s*', '', txt)
     txt = re.sub(r'<\s*(?:stdint\.uintptr_t|DdRef|DdNode\s*\*|DdRef\s*\*|int)\s*>\s*', '', txt)
     # annotations are not evaluated (C types are not Python objects)
     return 'from __future__ import annotations\n' + pyx.normalise(txt)
@@ -135,6 +137,40 @@ class CNode:
         return SymInt(self.base + self.w.net[self])
 
 
+class Handle:
+    """a `Function`: owns one library reference from creation (`wrap`, `zdd.var`) to disposal;
+    handles passed in by the caller are the caller's (not counted in this call's ledger)"""
+
+    def __init__(self, w, node, owned, zdd=None):
+        self.w, self.node, self.owned = w, node, owned
+        self.bdd = self.zdd = zdd
+        self.manager = Mgr()
+        if owned and node is not None:
+            w.inc(node)
+
+    @property
+    def ref(self):
+        return self.node.ref
+
+    def __del__(self):
+        if getattr(self, 'owned', False) and self.node is not None:
+            self.owned = False
+            self.w.dec(self.node)
+
+
+class Zdd:
+    def __init__(self, w, names):
+        self.w = w
+        self.vars = {nm: i for i, nm in enumerate(names)}
+        self._index_of_var = dict(self.vars)
+
+    def _number_of_cudd_vars(self):
+        return len(self.vars)
+
+    def var(self, name):
+        return Handle(self.w, self.w.node('var_' + name), True, self)
+
+
 class Table:
     """the memo of `_compose` (outlives the call): membership is arbitrary"""
 
@@ -195,8 +231,25 @@ class NS(dict):
             f = lambda u, _n=name: w.node(_n)
         elif name in ('cuddCacheInsert2', 'PyMem_Free'):
             f = lambda *a: None
+        elif name == 'PyMem_Malloc':
+            f = lambda n: [None] * int(n)
+        elif name == 'sizeof':
+            f = lambda t: 1
+        elif name == 'wrap':
+            f = lambda bdd, r: Handle(w, r, True, bdd)
+        elif name in ('DdRef', 'DdManager', 'Function'):
+            f = object
         elif name.endswith('_cache_id'):
             f = object()
+        elif name.endswith('_root'):
+            # `except NULL` functions: a failure arrives as an exception
+            def f(*a, _n=name):
+                if w.c.choose(2, 'fails:' + _n) == 1:
+                    w.log.append(f'{_n} raises')
+                    raise AssertionError(_n)
+                n = w.node(_n)
+                w.log.append(f'{_n} -> {n.name}')
+                return n
         elif name in MAYBE_NULL or name == self.own or name in TARGETS:
             f = lambda *a, _n=name: w.maybe(_n)
         else:
@@ -251,6 +304,17 @@ class Harness:
                 args.append(Z())
             elif kind == 'name':
                 args.append('x')
+            elif kind == 'handle':
+                zdd = Zdd(w, ['x', 'y'])
+                args.append(Handle(w, w.node('u'), False, zdd))
+            elif kind == 'dvars':
+                k = c.choose(3, 'substituted')
+                dv = {}
+                if k >= 1:
+                    dv['x'] = Handle(w, w.node('gx'), False, zdd)
+                if k >= 2:
+                    dv['y'] = Handle(w, w.node('gy'), False, zdd)
+                args.append(dv)
             elif kind == 'index':
                 args.append(None if c.choose(2, 'index-given') == 0 else 3)
         exc = ret = None
@@ -259,9 +323,12 @@ class Harness:
         except (AssertionError, RuntimeError) as e:
             exc = e.with_traceback(None)
         outcome = ('raised' if exc is not None else 'returned_null' if ret is None else 'returned')
+        ret_node = ret.node if isinstance(ret, Handle) else None
         if self.which == 'add_var' and exc is None:
             outcome = 'returned'
         want = {n: 0 for n in w.nodes}
+        if ret_node is not None:
+            want[ret_node] = 1          # the reference of the handle that is returned
         if table is not None:
             for x in table.stored:
                 if x is not None:
@@ -275,6 +342,8 @@ class Harness:
                         errors=list(w.errors))
         goals = [Goal(f'{self.which}_holds_no_temporary_reference_at_exit', z3.BoolVal(not off))]
         res = base.discharge(goals, [], extract)
+        if isinstance(ret, Handle):
+            ret.owned = False
         return dict(outcome=outcome, goals=res, witness=base.witness(extract), expect=dict(outcome='returned'))
 
 
